@@ -163,6 +163,12 @@ def run_history(t):
                 r = {'ok': [clean(apply_decisions(b0, decs)), [bool(d.conflict) for d in decs]]}
             elif k == 'targets':
                 N.set_notebook_diff_targets(*o['shown']); r = {'ok': None}
+            elif k == 'flags':
+                # the command-line route to the same table: the parsed -s/-o/-a/-m/-i/-d (or -S/-O/...) flags of
+                # nbdiff / nbmerge / nbdiff-web go through nbdime.args.process_diff_flags on every invocation of main()
+                import nbdime.args as NA
+                from nbdime.ignorables import diff_ignorables
+                NA.process_diff_flags(argparse.Namespace(**{n: o['given'].get(n) for n in diff_ignorables})); r = {'ok': None}
             elif k == 'ignores':
                 N.set_notebook_diff_ignores(o['mapping']); r = {'ok': None}
             elif k == 'reset':
